@@ -9,6 +9,7 @@
 package main
 
 import (
+	"reflect"
 	"strings"
 	"time"
 
@@ -489,6 +490,15 @@ func initTopicP2P(t *Topic, sreg *ClientComMessage) error {
 				// load it to keep the cache consistent with the database.
 				if restored, err := store.Subs.Get(t.name, userID2, false); err == nil && restored != nil {
 					sub2.Private = restored.Private
+				}
+			} else if restored, err := store.Subs.Get(t.name, userID1, false); err == nil && restored != nil &&
+				restored.Private != nil && !reflect.DeepEqual(restored.Private, sub1.Private) {
+				// The same for the requester's own re-created subscription: adopt the stored value when the
+				// request carried none, store the request's value otherwise.
+				if sub1.Private == nil {
+					sub1.Private = restored.Private
+				} else if err := store.Subs.Update(t.name, userID1, map[string]any{"Private": sub1.Private}); err != nil {
+					sub1.Private = restored.Private
 				}
 			}
 		}
